@@ -53,6 +53,12 @@ OrgWhilePhased(b) == b.ph[b.act] # 0
 
 Rorg(b, d) == [b EXCEPT !.pc[b.act] = @ + d]
 
+\* ORG / RORG as STATEMENTS, i.e. including what as.c WriteCode does after the handler: inside a UNION body every
+\* statement ends with the body's counter back at 0 (all members start at offset 0), so ORG and RORG have no lasting
+\* effect there; inside a STRUCT body they move the offset of the following fields like in an ordinary segment.
+OrgStmt(b, a) == IF InUnion(b) THEN b ELSE Org(b, a)
+RorgStmt(b, d) == IF InUnion(b) THEN b ELSE Rorg(b, d)
+
 \* ALIGN n: next multiple of n of the execution address; the gap is reserved (or filled)
 AlignGap(b, n) == LET e == Exec(b) IN ((e + n - 1) \div n) * n - e
 Align(b, n) == Advance(b, AlignGap(b, n))
